@@ -114,15 +114,15 @@ type W struct {
 }
 
 // Constructors.
-func Bool(b bool) W        { return W{K: KBool, B: b} }
-func I8(v int8) W          { return W{K: KI8, I: int64(v)} }
-func I16(v int16) W        { return W{K: KI16, I: int64(v)} }
-func I32(v int32) W        { return W{K: KI32, I: int64(v)} }
-func I64(v int64) W        { return W{K: KI64, I: v} }
-func Double(v float64) W   { return W{K: KDouble, F: math.Float64bits(v)} }
+func Bool(b bool) W         { return W{K: KBool, B: b} }
+func I8(v int8) W           { return W{K: KI8, I: int64(v)} }
+func I16(v int16) W         { return W{K: KI16, I: int64(v)} }
+func I32(v int32) W         { return W{K: KI32, I: int64(v)} }
+func I64(v int64) W         { return W{K: KI64, I: v} }
+func Double(v float64) W    { return W{K: KDouble, F: math.Float64bits(v)} }
 func DoubleBits(b uint64) W { return W{K: KDouble, F: b} }
-func Binary(b []byte) W    { return W{K: KBinary, Bin: b} }
-func Struct(fs ...Field) W { return W{K: KStruct, Fields: fs} }
+func Binary(b []byte) W     { return W{K: KBinary, Bin: b} }
+func Struct(fs ...Field) W  { return W{K: KStruct, Fields: fs} }
 func List(ek Kind, es ...W) W {
 	return W{K: KList, EK: ek, Elems: es}
 }
